@@ -1847,7 +1847,12 @@ func CantAdd(mach am.Api, states am.S, args am.A) bool {
 		CheckDone: make(chan struct{}),
 	}
 	mach.CanAdd(states, am.PassMerge(args, am.Pass(args2)))
-	<-args2.CheckDone
+	// a machine which gets disposed may never process the check
+	select {
+	case <-args2.CheckDone:
+	case <-mach.WhenDisposed():
+		return true
+	}
 
 	return !args2.Canceled
 }
@@ -1863,7 +1868,12 @@ func CantRemove(mach am.Api, states am.S, args am.A) bool {
 		CheckDone: make(chan struct{}),
 	}
 	mach.CanRemove(states, am.PassMerge(args, am.Pass(args2)))
-	<-args2.CheckDone
+	// a machine which gets disposed may never process the check
+	select {
+	case <-args2.CheckDone:
+	case <-mach.WhenDisposed():
+		return true
+	}
 
 	return !args2.Canceled
 }
